@@ -776,7 +776,9 @@ AnyP::Uri::absolutePath() const
 {
     if (absolutePath_.isEmpty()) {
         // TODO: Encode each URI subcomponent in path_ as needed.
-        absolutePath_ = Encode(path(), PathChars());
+        // path_ also carries the query component, where "?" is valid (RFC 3986 section 3.4)
+        static const auto pathAndQueryChars = PathChars() + CharacterSet("query-delimiter", "?");
+        absolutePath_ = Encode(path(), pathAndQueryChars);
     }
 
     return absolutePath_;
